@@ -357,3 +357,84 @@ func (ex *Exec) guardedEscape(fr *Frame, st *State, v Val, how string, pos token
 		}
 	}
 }
+
+// guardedOwned: a slice (or map) stored into a guarded field - also of an object still under construction - is the
+// object's own: never the very slice a caller handed in (the caller keeps it and can read, append to or overwrite its
+// backing array without the mutex, and so can another object built from the same slice). Decided on the SSA origin of
+// the stored value; only a value that DEFINITELY is a parameter or a captured variable of the function fails.
+func (ex *Exec) guardedOwned(fr *Frame, st *State, p *Ptr, x *ssa.Store) {
+	if !ex.lockChecks() || len(p.Path) == 0 {
+		return
+	}
+	switch x.Val.Type().Underlying().(type) {
+	case *types.Slice, *types.Map:
+	default:
+		return
+	}
+	var t types.Type
+	switch {
+	case p.Root != nil:
+		t = p.Root
+	case p.Cell != nil:
+		t = p.Cell.T
+	default:
+		return
+	}
+	for k, idx := range p.Path {
+		if gi := ex.guardFor(t); gi != nil && gi.mutexIdx >= 0 {
+			if fname, g := gi.fields[idx]; g {
+				if k != len(p.Path)-1 {
+					return // a store INTO the field's value (an element), not of the field itself
+				}
+				ex.lockObl(st, "owned@"+fname, fmt.Sprintf("the slice or map stored into guarded field %s is the object's own, not one a caller handed in (aliasing: its other holders use it without the mutex)", fname), !comesFromCaller(x.Val, map[ssa.Value]bool{}), x.Pos())
+				return
+			}
+		}
+		u, ok := t.Underlying().(*types.Struct)
+		if !ok || idx < 0 || idx >= u.NumFields() {
+			return
+		}
+		t = u.Field(idx).Type()
+	}
+}
+
+// comesFromCaller: v is, on some path, a parameter or free variable itself (possibly re-sliced, or appended to - append
+// reuses the backing array of its first argument when the capacity allows).
+func comesFromCaller(v ssa.Value, seen map[ssa.Value]bool) bool {
+	if seen[v] {
+		return false
+	}
+	seen[v] = true
+	switch x := v.(type) {
+	case *ssa.Parameter, *ssa.FreeVar:
+		return true
+	case *ssa.Slice:
+		return comesFromCaller(x.X, seen)
+	case *ssa.ChangeType:
+		return comesFromCaller(x.X, seen)
+	case *ssa.Phi:
+		for _, e := range x.Edges {
+			if comesFromCaller(e, seen) {
+				return true
+			}
+		}
+	case *ssa.UnOp:
+		if x.Op != token.MUL {
+			return false
+		}
+		a, ok := x.X.(*ssa.Alloc)
+		if !ok || a.Referrers() == nil {
+			return false
+		}
+		for _, r := range *a.Referrers() {
+			if s, ok := r.(*ssa.Store); ok && s.Addr == a && comesFromCaller(s.Val, seen) {
+				return true
+			}
+		}
+	case *ssa.Call:
+		if b, ok := x.Call.Value.(*ssa.Builtin); ok && b.Name() == "append" && len(x.Call.Args) > 0 {
+			return comesFromCaller(x.Call.Args[0], seen)
+		}
+	}
+	return false
+}
